@@ -19,8 +19,9 @@ SEL = {"ALL": sdn.ALL, "INSIDE": sdn.INSIDE, "OUTSIDE": sdn.OUTSIDE}
 @oplang.op("htrace")
 def _(w, e):
     seq = [need(w, h) for h in e["path"]] + [need(w, h) for h in e["item"]]
-    start = HRef.from_sequence(seq)
-    m = e.get("via") == "method"   # the shortcut spelling  href.get_hx(...)  of  sdn.get_hx(href, ...)
+    # a plain element (wire, cable) as the start stands for ALL its occurrences in the design
+    start = seq[-1] if e.get("plain") else HRef.from_sequence(seq)
+    m = e.get("via") == "method" and not e.get("plain")   # the shortcut spelling  href.get_hx(...)  of  sdn.get_hx(href, ...)
     if e["fn"] == "hwires":
         res = list(start.get_hwires(selection=SEL[e["sel"]]) if m else sdn.get_hwires(start, selection=SEL[e["sel"]]))
     elif e["fn"] == "hcables":
@@ -44,6 +45,13 @@ class TraceGen:
         self.left = cfg["n_traces"]
 
     def __call__(self):
+        e = self._call()
+        if e is not None and e.get("op") == "htrace" and e["kind"] in ("hwire", "hcable") and self.r.random() < 0.2:
+            e["plain"] = True
+            e.pop("via", None)
+        return e
+
+    def _call(self):
         if getattr(self, "pending", None):
             return self.pending.pop(0)
         if self.left > 0 and self.r.random() < self.cfg.get("edit_rate", 0.0):
@@ -180,15 +188,21 @@ class C12(Prop):
     def after(self, w, ev, outcome, pre):
         if ev["op"] != "htrace":
             return
-        disc = "%s/%s/%s" % (ev["kind"], ev["fn"], ev["sel"])
+        disc = "%s%s/%s/%s" % ("plain_" if ev.get("plain") else "", ev["kind"], ev["fn"], ev["sel"])
         if outcome != "ok":
             raise Violation("C12.raised", disc + ":" + outcome.split(":", 1)[-1], "trace raised %s" % outcome)
         start, res = w.last_trace
         n = [w.handles[h] for h in w.order if kind_of(w.handles[h]) == "netlist"][0]
         el = Elab(n)
-        sc = chain(start)
-        insts = tuple(x for x in sc if kind_of(x) == "instance")
-        item = sc[len(insts):]
+        if ev.get("plain"):
+            # expected = the union of the answers for every occurrence of the element's definition
+            item = tuple(w.h(h) for h in ev["item"])
+            d = item[0].definition
+            occs = [tuple(p) for p in el.occ if p[-1].reference is d]
+        else:
+            sc = chain(start)
+            occs = [tuple(x for x in sc if kind_of(x) == "instance")]
+            item = sc[len(occs[0]):]
         seen = set()
         for h in res:
             k = ids(chain(h))
@@ -202,6 +216,8 @@ class C12(Prop):
             if wire is None:
                 return set()
             return el.net_of(path, wire)
+
+        insts = occs[0] if occs else ()
 
         def sides(pin):
             """(inside hwire key, outside hwire key) of hierarchical pin (insts, port, pin)."""
@@ -217,11 +233,12 @@ class C12(Prop):
         if fn == "hpins":
             wire = item[-1]
             want = set()
-            for p in wire.pins:
-                if kind_of(p) == "ipin":
-                    want.add(ids(insts + (p.port, p)))
-                else:
-                    want.add(ids(insts + (p.instance, p.inner_pin.port, p.inner_pin)))
+            for insts in occs:
+                for p in wire.pins:
+                    if kind_of(p) == "ipin":
+                        want.add(ids(insts + (p.port, p)))
+                    else:
+                        want.add(ids(insts + (p.instance, p.inner_pin.port, p.inner_pin)))
             if seen != want:
                 raise Violation("C12.hpins_of_hwire", "missing" if want - seen else "extra",
                                 "get_hpins(hwire): expected %d pins, got %d" % (len(want), len(seen)))
@@ -230,22 +247,26 @@ class C12(Prop):
             # the ports whose pins are attached to the wire: of the wire's own definition and of its sub-instances
             wire = item[-1]
             want = set()
-            for p in wire.pins:
-                if kind_of(p) == "ipin":
-                    want.add(ids(insts + (p.port,)))
-                else:
-                    want.add(ids(insts + (p.instance, p.inner_pin.port)))
+            for insts in occs:
+                for p in wire.pins:
+                    if kind_of(p) == "ipin":
+                        want.add(ids(insts + (p.port,)))
+                    else:
+                        want.add(ids(insts + (p.instance, p.inner_pin.port)))
             if seen != want:
                 raise Violation("C12.hports_of_hwire", "missing" if want - seen else "extra",
                                 "get_hports(hwire): expected %d ports, got %d" % (len(want), len(seen)))
             return
         got_wires = set(hw_key(h) for h in res) if fn == "hwires" else None
         if ev["kind"] == "hwire":
-            want = cls_of(insts, item[-1])
+            want = set()
+            for insts in occs:
+                want |= cls_of(insts, item[-1])
         elif ev["kind"] == "hcable":
             want = set()
-            for wr in item[0].wires:
-                want |= cls_of(insts, wr)
+            for insts in occs:
+                for wr in item[0].wires:
+                    want |= cls_of(insts, wr)
         elif ev["kind"] == "hport":
             want = set()
             for pin in item[0].pins:
